@@ -140,6 +140,8 @@ pub struct ClientSlot {
     /// events seen so far, with (event seq, time)
     pub events: Vec<(u64, u64, CEv)>,
     pub steps: u32,
+    /// times of this client's step() calls
+    pub step_times: Vec<u64>,
     /// time of connect()
     pub t_connect_us: u64,
 }
@@ -251,7 +253,7 @@ impl World {
         let client = uflow::client::Client::connect(self.server_addr, ccfg).expect("virtual connect");
         let addr = client.local_address();
         let ci = self.clients.len();
-        self.clients.push(ClientSlot { client: Some(client), addr, cfg: cfg.clone(), events: Vec::new(), steps: 0, t_connect_us: self.now_us });
+        self.clients.push(ClientSlot { client: Some(client), addr, cfg: cfg.clone(), events: Vec::new(), steps: 0, step_times: Vec::new(), t_connect_us: self.now_us });
         self.links.push(link);
         self.addr_to_client.insert(addr, ci);
         self.route();
@@ -416,6 +418,8 @@ impl World {
                 });
             }
             self.clients[ci].steps += 1;
+            let t = self.now_us;
+            self.clients[ci].step_times.push(t);
         }
         for e in out.iter() {
             let s = self.next_ev();
